@@ -1,8 +1,9 @@
 (* C36 — Replication and sync mirror exactly the watched subtree.
    Only statements closed by [exact]; proofs live in proof/ReplProofs.v.
-   The model follows the tree after the component-wise prefix repair
+   The model follows the tree after the repairs: component-wise prefix test
    (pathIsUnder in weed/command/filer_sync.go, the trimmed dir in
-   Replicator.Replicate). *)
+   Replicator.Replicate), the early test of genProcessFunction also looking at
+   the new location, LocalSink.UpdateEntry reporting a moved entry as not found. *)
 From Coq Require Import List NArith ZArith Bool String.
 From SW Require Import model.Repl proof.ReplProofs.
 Import ListNotations.
@@ -38,54 +39,73 @@ Theorem c36_filter_transparent : forall c ev,
 Proof. exact sync_filter_transparent. Qed.
 Print Assumptions c36_filter_transparent.
 
-(* The full mirror statement fails for genProcessFunction (finding 0: an entry
-   moved from outside into the watched subtree is dropped by the early
-   resp.Directory test) ... *)
-Theorem c36_mirror_refuted : ~ mirror_full_sync.
-Proof. exact sync_mirror_refuted. Qed.
-Print Assumptions c36_mirror_refuted.
+(* FULL for genProcessFunction (filer.sync, filer.backup): every well-formed
+   event yields exactly the reference plan — create / delete / update / move at
+   the mapped path for keys strictly inside (incl. moves into and out of the
+   subtree), nothing for keys outside. *)
+Theorem c36_mirror_sync : forall c ev,
+  wf_config c = true -> wf_event ev = true -> incremental c = false ->
+  touches_root c ev = false ->
+  sync_process c ev = mirror_spec c ev.
+Proof. exact sync_mirror. Qed.
+Print Assumptions c36_mirror_sync.
 
-(* ... and for Replicator.Replicate (finding 1: NewParentPath is handed to the
-   sink unmapped and the event is handled by its old key only). *)
+(* The same statement fails for Replicator.Replicate (finding 0: NewParentPath is
+   handed to the sink unmapped and the event is handled by its old key only). *)
 Theorem c36_mirror_replicate_refuted : ~ mirror_full_replicate.
 Proof. exact replicate_mirror_refuted. Qed.
 Print Assumptions c36_mirror_replicate_refuted.
 
-(* PARTIAL: outside those triggers both event functions issue exactly the
-   reference plan: create / delete / update / move at the mapped path for keys
-   strictly inside, nothing for keys outside. *)
+(* PARTIAL for Replicate: outside that trigger it issues the reference plan. *)
 Theorem c36_mirror_partial :
   (forall c ev,
      wf_config c = true -> wf_event ev = true -> incremental c = false ->
-     touches_root c ev = false -> rename_in c ev = false ->
+     touches_root c ev = false ->
      sync_process c ev = mirror_spec c ev) /\
   (forall c ev,
      wf_config c = true -> wf_event ev = true -> incremental c = false ->
      ev_from_other ev && sink_is_filer c = false ->
      touches_root c ev = false -> replicate_unsafe c ev = false ->
      replicate c (event_key ev) ev = mirror_spec c ev).
-Proof. exact (conj sync_mirror_partial replicate_mirror_partial). Qed.
+Proof. exact (conj sync_mirror replicate_mirror_partial). Qed.
 Print Assumptions c36_mirror_partial.
 
-(* LocalSink (finding 2): UpdateEntry rewrites the old key whatever the
-   destination, so a file renamed inside the watched subtree stays at its old
-   path in the backup directory. *)
-Theorem c36_local_rename_stays : forall t key np n dc d cr,
-  is_multipart key = false -> local_exists t key = true ->
-  fst (exec_plan _ local_do t (UpdateOr (Update key np n dc) d cr)) = fst (local_create t key n).
-Proof. exact local_rename_stays. Qed.
-Print Assumptions c36_local_rename_stays.
+(* LocalSink, all trees: a moved entry makes UpdateEntry answer "not found"
+   without touching the tree, so the plan deletes the old key and runs the create; *)
+Theorem c36_local_move : forall t key np n dc isdir cr,
+  is_multipart key = false -> join [np; e_name n] <> key ->
+  fst (exec_plan _ local_do t (UpdateOr (Update key np n dc) (Delete key isdir false) cr)) =
+  fst (local_do (local_delete t key) cr).
+Proof. exact local_move. Qed.
+Print Assumptions c36_local_move.
 
-Theorem c36_local_mirror_refuted :
-  wf_config w_lcfg = true /\ forallb wf_event [w_lcreate; w_lrename] = true /\
-  files_of (fst (run_local w_lcfg [] [w_lcreate; w_lrename])) = ["/t/a"%string] /\
-  spec_files w_lcfg [w_lcreate; w_lrename] = ["/t/b"%string].
-Proof. exact local_mirror_refuted. Qed.
-Print Assumptions c36_local_mirror_refuted.
+(* hence a rename inside the watched subtree through genProcessFunction into a
+   LocalSink removes the mapped old path and creates the mapped new path. *)
+Theorem c36_local_sync_move : forall c ev o n t,
+  wf_config c = true -> wf_event ev = true -> incremental c = false ->
+  touches_root c ev = false ->
+  ev_old ev = Some o -> ev_new ev = Some n ->
+  let ok := segs (ev_dir ev) ++ [e_name o] in
+  let nk := segs (ev_new_parent ev) ++ [e_name n] in
+  inside c ok = true -> inside c nk = true -> ok <> nk ->
+  is_multipart (map_path c ok) = false ->
+  fst (exec_plan _ local_do t (sync_process c ev)) =
+  fst (local_create (local_delete t (map_path c ok)) (map_path c nk) n).
+Proof. exact local_sync_move. Qed.
+Print Assumptions c36_local_sync_move.
 
-(* non-vacuity: the hypotheses of the partial theorem hold on a rename inside
-   /data/ (written with a trailing slash) and the plan is the expected move;
-   the sibling /data2 is ignored *)
+(* an entry that stays where it is: UpdateEntry rewrites the file in place *)
+Theorem c36_local_update_in_place : forall t key np e dc,
+  is_multipart key = false -> join [np; e_name e] = key ->
+  local_do t (Update key np e dc) =
+  (fst (local_create t key e), (local_exists t key, snd (local_create t key e))).
+Proof. exact local_update_in_place. Qed.
+Print Assumptions c36_local_update_in_place.
+
+(* non-vacuity: the hypotheses hold on a rename inside /data/ (written with a
+   trailing slash) and the plan is the expected move; a move into the subtree
+   creates the entry; the sibling /data2 is ignored; the former LocalSink witness
+   history ends with the file at its new path *)
 Local Open Scope string_scope.
 Example c36_example :
   let c := {| src := "/data/"; tgt := "/backup"; incremental := false; sink_is_filer := true; target_sig := 7%Z |} in
@@ -94,9 +114,13 @@ Example c36_example :
                ev_delete_chunks := true; ev_from_other := false; ev_sigs := [3%Z] |} in
   let sib := {| ev_dir := "/data2"; ev_old := None; ev_new := Some (e "x"); ev_new_parent := "/data2";
                 ev_delete_chunks := false; ev_from_other := false; ev_sigs := [] |} in
-  wf_config c = true /\ wf_event mv = true /\ touches_root c mv = false /\ rename_in c mv = false /\
+  wf_config c = true /\ wf_event mv = true /\ touches_root c mv = false /\
   sync_process c mv = UpdateOr (Update "/backup/a/x" "/backup/b" (e "y") true)
                                (Delete "/backup/a/x" false false) (Create "/backup/b/y" (e "y")) /\
+  wf_event w_rename_in = true /\ touches_root w_cfg w_rename_in = false /\
+  sync_process w_cfg w_rename_in = Do (Create "/backup/x" (w_entry "x")) /\
   wf_event sib = true /\ all_outside c sib = true /\ sync_process c sib = Nothing /\
-  replicate c (event_key sib) sib = Nothing.
+  replicate c (event_key sib) sib = Nothing /\
+  files_of (fst (run_local w_lcfg [] [w_lcreate; w_lrename])) = ["/t/b"] /\
+  spec_files w_lcfg [w_lcreate; w_lrename] = ["/t/b"].
 Proof. vm_compute. repeat split; reflexivity. Qed.
